@@ -247,9 +247,9 @@ def gen_cfg(prop, tier, seed, i):
         cfg['steps'] = pick(r, [800, 2000, 4000], [2, 3, 2])
         if cfg['journal'] in ('file+dump', 'dump'):
             # serializer modes of the statement: inline file write, fork child, user-supplied functions (sync / with checker)
-            cfg['ser_mode'] = pick(random.Random(h32('sermode', prop, seed, i)), ['file', 'fork', 'user', 'user_async'], [4, 1, 2, 2])
+            cfg['ser_mode'] = pick(random.Random(h32('sermode', prop, seed, i)), ['file', 'fork', 'user', 'user_async'], [3, 3, 2, 2])
     if prop == 'C06' and cfg['journal'] == 'file+dump':
-        cfg['ser_mode'] = pick(random.Random(h32('sermode', prop, seed, i)), ['file', 'fork', 'user'], [6, 1, 1])
+        cfg['ser_mode'] = pick(random.Random(h32('sermode', prop, seed, i)), ['file', 'fork', 'user'], [3, 2, 1])
     if prop == 'C10':
         cfg['n'] = pick(r, [1, 2, 3, 4], [1, 2, 3, 2])
         cfg['journal'] = 'memory'
@@ -313,6 +313,14 @@ def gen_cfg(prop, tier, seed, i):
             w['restart'] = 1.5
         cfg['batch'] = pick(r, [200, 4096, 65536])
         cfg['chunk'] = pick(r, [50, 65536])
+    rx = random.Random(h32('rare', prop, seed, i))
+    if rx.random() < 0.2 and cfg.get('sim') in (None, 'member') and prop not in ('C07',):
+        # less travelled configuration: compaction by age of the last snapshot (instead of log length), each node in its own
+        # time slot (logCompactionSplit), another heartbeat period
+        cfg['ae_period'] = pick(rx, [0.1, 0.05])
+        if cfg.get('journal') != 'file':       # (a journal without dump file must not compact: listed finding of C06)
+            cfg['compact_time'] = pick(rx, [1.5, 6.0])
+            cfg['compact_split'] = rx.random() < 0.5
     cfg['liveness'] = cfg['batch'] >= 200 and cfg['chunk'] >= 50 and cfg.get('clock_eps', 2e-5) <= 2e-5
     return cfg
 
